@@ -572,6 +572,33 @@ func buildScenario(r *vs.Rand, cfg dcfg) *scenario {
 		}
 	}
 	w.fillCaches()
+	if r.Chance(20) {
+		// somebody else writes the target after the cache was filled: what the sync holds is stale, its write conflicts
+		w.sim.Mutate(p.group(), p.Resource, ns, sc.tname, func(o map[string]interface{}) {
+			md := o["metadata"].(map[string]interface{})
+			switch r.Intn(3) {
+			case 0:
+				sp, _ := o["spec"].(map[string]interface{})
+				if sp == nil {
+					sp = map[string]interface{}{}
+					o["spec"] = sp
+				}
+				sp["outside"] = int64(7)
+				g, _ := md["generation"].(int64)
+				md["generation"] = g + 1
+			case 1:
+				ann, _ := md["annotations"].(map[string]interface{})
+				if ann == nil {
+					ann = map[string]interface{}{}
+					md["annotations"] = ann
+				}
+				ann["outside"] = "yes"
+			case 2:
+				fs, _ := md["finalizers"].([]interface{})
+				md["finalizers"] = append(fs, "example.com/late")
+			}
+		})
+	}
 	return sc
 }
 
